@@ -148,7 +148,7 @@ class C17(Check):
                    "an expression on which both parse and direct construction throw is skipped; exact sub-results are kept "
                    "below ~700 digits by construction",
                    "Python float() is correctly rounded (IEEE-754 round-half-even)"]
-    tiers = {"quick": {"examples": 2400}, "thorough": {"examples": 110000}}
+    tiers = {"quick": {"examples": 2400}, "thorough": {"examples": 60000}}
     batch = 8
 
     def enumerate(self, tier):
